@@ -165,7 +165,10 @@ func (p *parser) ParseFile() (prog *ast.File, err error) {
 				prog = p.prog
 				err = errx
 			} else {
-				panic(r)
+				// failed asserts, unchecked operand type assertions, unsupported cpu:
+				// the input is at fault, report it at the current token
+				prog = p.prog
+				err = &parserError{pos: p.fset.Position(p.pos), msg: fmt.Sprintf("invalid input: %v", r)}
 			}
 		}
 	}()
